@@ -20,8 +20,11 @@ import json
 import os
 
 from vlib import core, corr
+from props import c05_tlsmsg
 
-DEPENDS = ["Frames", "ConnRecv", "FramesP", "ConnRecvP", "C05Tables(gen)", "StreamRecv", "RangeSet", "Base", "Tok", "C05"]
+GENERATORS = ["c05_tables", "c05_tls"]
+DEPENDS = ["Frames", "ConnRecv", "FramesP", "ConnRecvP", "C05Tables(gen)", "StreamRecv", "RangeSet", "Base", "Tok", "C05",
+           "TlsParse", "TlsRecv", "TlsParseP", "TlsRecvP", "TlsSitesP", "C05Tls(gen)", "TlsDispatch(gen)", "Codec", "TlsCodec"]
 TRUSTED_BASE = [
     "extraction (ExtrOcamlBasic only; Z kept inductive) + coq/extract/driver.ml for running the model",
     "tools/gen/c05_tables.py (ast reader of __frame_handlers / enums; output is compared with the running "
@@ -30,16 +33,29 @@ TRUSTED_BASE = [
     "(state snapshot through private attributes, outcome classification, implementation oracle)",
     "modelled, not verified: connection.py receive path below packet protection, packet.py/_buffer.c readers "
     "used by it; handler effects on loss recovery / events / sender halves are outside the model",
-    "TLS engine in handshake states is an input of the frame-layer model (tls_oracle); its no-raise behaviour "
-    "is checked by the implementation oracle only; cryptography/OpenSSL exceptions are an observed list",
+    "TLS message layer (coq/model/TlsParse.v, TlsRecv.v): cryptography / X.509 / service_identity / OpenSSL and the "
+    "application callbacks are oracle fields (value or exception class per call); which classes those libraries raise is "
+    "an observed list, checked by the tlsmsg tie on every explored input (an unlisted class shows as a disagreement); "
+    "tools/gen/c05_tls.py + gen/TlsDispatch.v (ast readers) pin enums, dictionaries, default lists, the dispatch table and "
+    "the raise-site skeleton of tls.py; harness/props/c05_tlsmsg.py reads the Context's private attributes and wraps "
+    "tls.decode_public_key / tls.verify_certificate / Context._handle_reassembled_message to record oracle answers",
+    "frame-layer model (ConnRecv.v) still takes the TLS engine's answer in handshake states as an input (tls_oracle); "
+    "TlsRecv.crypto_deliver is proved separately and not yet substituted into ConnRecv.h_crypto",
 ]
 ASSUMPTIONS = [
+    "tls_handle_message_total: wf_cfg (every advertised signature algorithm is Ed25519, Ed448 or a key of SIGNATURE_ALGORITHMS: "
+    "Example wf_cfg_default_client/server for the generated defaults) and wf0 (fresh client, or the invariant wf_ctx that the "
+    "theorem itself re-establishes); patched = tree with docs/C05-fix-7.patch -- refuted for the tree as it is (T8, T9)",
+    "a Context that raised an Alert is dead: the connection closes and never feeds it again (receive_datagram returns on _close_pending)",
+    "local configuration is not network input: certificate chain / handshake extensions fit the 4096-byte crypto buffers, the local "
+    "private key can sign with the negotiated algorithm, application callbacks (session ticket fetcher / handler) return",
     "receive_total_frames: the TLS oracle does not answer with an escaping exception (to_kind <> 3) -- "
     "refuted for the pinned tls.py by the implementation oracle (findings T1-T4), holds for the patched tree on every generated message",
     "AEAD/header protection are outside: the model starts from the decrypted payload (C02)",
 ]
 
-EXN = {"AssertionError": 1, "IndexError": 2, "KeyError": 3, "UnicodeDecodeError": 4, "ValueError": 5, "TypeError": 6}
+EXN = {"AssertionError": 1, "IndexError": 2, "KeyError": 3, "UnicodeDecodeError": 4, "ValueError": 5, "TypeError": 6,
+       "AttributeError": 7, "CertificateError": 8}
 EPOCH_NUM = {"initial": 0, "0rtt": 1, "handshake": 2, "1rtt": 3}
 V1 = 1
 V2 = 0x6B3343CF
@@ -303,7 +319,7 @@ class Lab:
             self.puppet = sim.Puppet(p, as_side=peer)
         elif state == "evilcert":
             # hostile server: its own (self-signed) certificate with many long subjectAltNames
-            cert, key = evil_certificate(spec.get("sans", 1), spec.get("san_len", 5))
+            cert, key = evil_certificate(spec.get("sans", 1), spec.get("san_len", 5), spec.get("evil", "sans"))
             kw["server_config"] = {"certificate": cert, "private_key": key, "certificate_chain": []}
             self.pair = p = sim.Pair(seed, **kw)
         elif state == "rewrite":
@@ -382,6 +398,9 @@ class Lab:
         elif k == "sh":        # ServerHello bytes -> client in first flight
             sh = bytes.fromhex(op[1])
             self.send_long(b"\x06" + varint(0) + varint(len(sh)) + sh, {})
+        elif k == "sh_nopump":  # ServerHello bytes -> client in first flight, datagrams_to_send() NOT called afterwards
+            sh = bytes.fromhex(op[1])
+            self.send_long(b"\x06" + varint(0) + varint(len(sh)) + sh, dict(op[2] if len(op) > 2 else {}, nopump=True))
         elif k == "tls":
             self.puppet.send_tls_message(op[2], bytes.fromhex(op[3]), epoch=op[1])
         elif k == "adv":
@@ -420,7 +439,11 @@ class Lab:
         if len(data) < pad:
             data += bytes(pad - len(data))
         self.last_datagram = data
-        self.pair.deliver_now(data, self.peer_addr(), self.subject)
+        if o.get("nopump"):
+            # receive_datagram() only: the application has not called datagrams_to_send() yet
+            self.subject.receive_datagram(data, self.peer_addr())
+        else:
+            self.pair.deliver_now(data, self.peer_addr(), self.subject)
 
     def send_packet(self, epoch, payload, opts):
         kw = {}
@@ -438,18 +461,32 @@ class Lab:
         self.puppet.send_frames(epoch, payload, **kw)
 
 
-def evil_certificate(nsans, ln):
+def evil_certificate(nsans, ln, kind="sans"):
+    """Self-signed certificate of a hostile server.  kind: "sans" many long names (A1);
+    "badsan" a subjectAltName extension whose DER does not parse (T8); "wildcard" / "ipdns" / "emptydns" a dNSName
+    service_identity rejects as a pattern: "*.com", "1.2.3.4", "" (T9)."""
     import datetime
     from cryptography import x509
     from cryptography.hazmat.primitives.asymmetric import ed25519
-    from cryptography.x509.oid import NameOID
+    from cryptography.x509.oid import NameOID, ObjectIdentifier
     key = ed25519.Ed25519PrivateKey.generate()
     name = x509.Name([x509.NameAttribute(NameOID.COMMON_NAME, "evil")])
-    sans = [x509.DNSName(("a%03d" % i) + "b" * ln + ".example") for i in range(nsans)]
+    if kind == "badsan":
+        ext = x509.UnrecognizedExtension(ObjectIdentifier("2.5.29.17"), b"\x01\x02\x03")
+    elif kind == "wildcard":
+        ext = x509.SubjectAlternativeName([x509.DNSName("*.com")])
+    elif kind == "ipdns":
+        ext = x509.SubjectAlternativeName([x509.DNSName("1.2.3.4")])
+    elif kind == "emptydns":
+        ext = x509.SubjectAlternativeName([x509.DNSName("")])
+    else:
+        ext = x509.SubjectAlternativeName([x509.DNSName(("a%03d" % i) + "b" * ln + ".example") for i in range(nsans)])
     cert = (x509.CertificateBuilder().subject_name(name).issuer_name(name).public_key(key.public_key())
             .serial_number(1).not_valid_before(datetime.datetime(2020, 1, 1))
             .not_valid_after(datetime.datetime(2040, 1, 1))
-            .add_extension(x509.SubjectAlternativeName(sans), critical=False).sign(key, None))
+            .add_extension(ext, critical=False).sign(key, None))
+    if kind != "sans":
+        cert = x509.load_der_x509_certificate(cert.public_bytes(__import__("cryptography").hazmat.primitives.serialization.Encoding.DER))
     return cert, key
 
 
@@ -548,6 +585,8 @@ def snapshot_tokens(conn, epoch, dcid, tls_oracle):
     t += lst(int.from_bytes(k, "big") for k in conn._local_challenges.keys())
     t += lst(sorted(conn._streams_finished))
     t += lst(conn.tls._receive_buffer)
+    t += lst(c.sequence_number for c in conn._host_cids
+             if not c.was_sent and c.sequence_number > getattr(conn, "_host_cid_seq_sent", -1))
     t += [len(streams)]
     for s in streams:
         t += s
@@ -1124,6 +1163,9 @@ def flight_mutations(rng):
         "cert_empty_list": at(1, cert([])),
         "cert_garbage_der": at(1, cert([(b"hello", b"")])),
         "cert_empty_der": at(1, cert([(b"", b"")])),
+        # T11: the X.509 version INTEGER (a0 03 02 01 02) set to 18: x509.InvalidVersion is not a ValueError
+        "cert_bad_version": at(1, lambda m: m.replace(b"\xa0\x03\x02\x01\x02", b"\xa0\x03\x02\x01\x12", 1)),
+        "cert_version_1": at(1, lambda m: m.replace(b"\xa0\x03\x02\x01\x02", b"\xa0\x03\x02\x01\x01", 1)),
         "cert_context": at(1, lambda m: tls_msg(11, b"\x03abc" + m[5:])),
         "cert_chain_garbage": at(1, lambda m: tls_msg(11, m[4:5] + (lambda eb: len(eb).to_bytes(3, "big") + eb)(m[8:] + (3).to_bytes(3, "big") + b"abc" + (0).to_bytes(2, "big")))),
         "cert_truncated": at(1, lambda m: tls_msg(11, m[4:40])),
@@ -1278,6 +1320,9 @@ def run(ctx):
         return g
     fr.oracle = once(oracle_frames)
     hd.oracle = once(oracle)
+    tm = corr.Suite(ctx, "tlsmsg", "exec_tlsrecv", c05_tlsmsg.encode, c05_tlsmsg.impl, None, None, None,
+                    nontrivial=lambda c, out: bool(c.get("data") or c.get("genuine")), opname=None)
+    tm.oracle = once(lambda c: c05_tlsmsg.oracle(c, exc_site))
     fr.run(corr.load_corpus("C05", "frames"), "corpus")
     hd.run(corr.load_corpus("C05", "header"), "corpus")
     fcases = gen_frame_cases(rng, ctx.n(5000, 60000))
@@ -1285,6 +1330,16 @@ def run(ctx):
         fr.run(fcases[i:i + 1000])
         _CACHE.clear()
     stats["protected_packets"] += sum(1 + len(c["ops"]) for c in fcases)
+    tm.run(corr.load_corpus("C05", "tlsmsg"), "corpus")
+    tcases = c05_tlsmsg.gen_cases(rng, ctx.n(2500, 40000))
+    for i in range(0, len(tcases), 1500):
+        part = tcases[i:i + 1500]
+        tm.run(part)
+        for c in part:
+            tm.stats["op_histogram"][c05_tlsmsg.op_name(c)] += 1
+            tm.stats["outcome_histogram"][json.dumps(c05_tlsmsg.impl(c)[:2])] += 1
+        c05_tlsmsg._OBS.clear()
+    stats["tls_messages"] += len(tcases)
     hcases = gen_header_cases(rng, ctx.n(600, 6000))
     hd.run(hcases)
     _CACHE.clear()
@@ -1305,11 +1360,17 @@ def run(ctx):
     extra = {"volume": {k: (dict(v) if isinstance(v, collections.Counter) else v) for k, v in stats.items()},
              "packets_total": stats["datagrams"] + stats["protected_packets"] + stats["tls_messages"]}
     cov = corr.merge_coverage(
-        [fr, hd],
+        [fr, hd, tm],
         "frames: grammar-generated payloads (every frame type x boundary values x truncation at every byte x repetition x "
         "unknown types) in protected packets to client/server in connected / key-updated / handshake states, state snapshot "
         "taken from the real connection; header: header-grammar datagrams against the decision function; distinct = distinct "
-        "model input, non-trivial = at least one frame / a classified header",
+        "model input, non-trivial = at least one frame / a classified header; tlsmsg: real tls.Context client/server pairs "
+        "(EC / RSA / Ed25519 / hostile certificates, client-certificate request, session tickets, PSK resumption) driven to "
+        "every reachable state, then fed this world's own genuine flight (whole, partial, split, one message mutated), "
+        "grammar-generated ClientHello / ServerHello / EncryptedExtensions / Certificate / CertificateRequest / CertificateVerify / "
+        "Finished / NewSessionTicket with hostile fields, wrong-type, oversize and random messages; compared: outcome kind, alert "
+        "number / QuicConnectionError code / exception class, resulting state, receive-buffer length, resumed flag, peer certificate, "
+        "key-schedule generation",
         extra)
     cov["evaluations"] += stats["datagrams"] + stats["tls_messages"]
     return cov
@@ -1430,6 +1491,25 @@ def run_tls(ctx, rng, stats, report):
             _, probs = run_ops(case)
             stats["tls_messages"] += 1
             report(probs, case, "tls-certificate-sans:%dx%d" % (nsans, ln))
+        # T10: a second ServerHello (CRYPTO continuing at the next offset) after a rejected one, received before the
+        # application called datagrams_to_send(): the close is pending, the TLS engine half-updated
+        for name in ("no_key_share", "unknown_group", "zero_x25519", "bad_suite"):
+            sh = server_hello_variants(rng).get(name)
+            if sh is None:
+                continue
+            f1 = b"\x06" + varint(0) + varint(len(sh)) + sh
+            f2 = b"\x06" + varint(len(sh)) + varint(len(sh)) + sh
+            case = {"spec": spec("client", "firstflight", 501),
+                    "ops": [["long", f1.hex(), {"pn": 1, "nopump": True}], ["long", f2.hex(), {"pn": 2, "nopump": True}]],
+                    "variant": "sh-twice:" + name}
+            _, probs = run_ops(case)
+            stats["tls_messages"] += 2
+            report(probs, case, "tls-server-hello-twice:" + name)
+        for evil in ("badsan", "wildcard", "ipdns", "emptydns"):
+            case = {"spec": spec("client", "evilcert", 505, evil=evil), "ops": [["run"]], "variant": "cert:" + evil}
+            _, probs = run_ops(case)
+            stats["tls_messages"] += 1
+            report(probs, case, "tls-certificate-" + evil)
         for name, (t, body) in post_handshake_messages(rng).items():
             for side in ("client", "server"):
                 case = {"spec": spec(side, "connected", 503), "ops": [["tls", "1rtt", t, body.hex()]], "variant": "post:" + name}
@@ -1460,6 +1540,13 @@ def replay(ctx, rep):
         lab.apply(["run"])
         lab.settle()
         out["problems"] = judge(lab)
+        return out
+    if "data" in case and "side" in case:
+        tokens, exp, exc, _ = c05_tlsmsg.observe(case)
+        out["impl"] = exp
+        out["exception"] = repr(exc)
+        out["model"] = core.run_model("exec_tlsrecv", [tokens], shards=1)[0]
+        out["oracle"] = c05_tlsmsg.oracle(case, exc_site)
         return out
     if "frames" in case:
         tokens, exp, later = frames_observe(case)
